@@ -216,8 +216,11 @@ def check_combine_real(ctx, case):
         for k in m:
             exp.setdefault(k, m)
     check_mapping(ctx, "combined registry", comb, case, expect_keys=list(exp))
+    def content(it):
+        # a directory registry parses the file anew on every lookup: compare what the item holds
+        return (it.id, it.name, type(it.entity).__name__, str(it.entity.record.seq).upper(), it.resistance)
     for k in list(exp)[:50]:
-        if comb[k] is not exp[k][k] and comb[k] != exp[k][k]:
+        if comb[k] is not exp[k][k] and content(comb[k]) != content(exp[k][k]):
             ctx.fail("combined registry: {!r} does not come from the first member holding it".format(k), case)
     ctx.case(case, nontrivial=len(exp) >= 2)
 
